@@ -201,9 +201,13 @@ def run_cases(prop_module_name, cases, cpu=120, wall=900, nproc=None, progress=N
 
 def describe(prop, key):
     """Human-readable 'what fails' for a mechanism key (used when an entry has no text of its own)."""
+    layout = ""
+    if "|" in key:
+        key, layout = key.rsplit("|", 1)
+        layout = " [input layout class: %s]" % layout
     parts = key.split(":")
     r = parts[0]
-    rest = ":".join(parts[1:])
+    rest = ":".join(parts[1:]) + layout
     T = {
         "C01": "rule %s changes the code-token sequence outside its documented edit contract (%s)" % (r, rest),
         "C02": "rule %s does not preserve the comment / pragma sequence (%s)" % (r, rest),
